@@ -132,23 +132,31 @@ static void vh_end(void) {
     if (!SPIF_MAP_ISNULL(A)) { SPIF_MAP_DEL(A); A = (spif_map_t) NULL; }
 }
 
-/* listing call with (w) or without a caller-supplied list; kind 0 keys, 1 values, 2 pairs */
-static const char *listing(spif_map_t M, int kind, int w, vh_sb *ret) {
-    spif_list_t mine = (spif_list_t) NULL, R;
-    long n, i;
-    if (w) {
-        mine = cu_new_list();
-        if (kind == 2) {
-            spif_obj_t z = cu_mk(0);
-            SPIF_LIST_APPEND(mine, SPIF_OBJ(spif_objpair_new_from_both(z, z)));
-            SPIF_OBJ_DEL(z);
-        } else {
-            SPIF_LIST_APPEND(mine, cu_mk(0));
+/* listing call; kind 0 keys, 1 values, 2 pairs.  np < 0: NULL is passed; otherwise the caller passes its own list of
+ * LIST class dc (1 array, 2 linked_list, 3 dlinked_list - independent of the map's class) already holding np entries
+ * 1001.. (pairs <<1001,1001>>.. for get_pairs).  reps = 2: a second call into the list the first call returned. */
+static const char *listing(spif_map_t M, int kind, long np, long dc, long reps, vh_sb *ret) {
+    spif_list_t mine = (spif_list_t) NULL, R = (spif_list_t) NULL, R2;
+    long n, i, r;
+    if (np >= 0) {
+        mine = (dc == 1) ? SPIF_LIST_NEW(array) : (dc == 2) ? SPIF_LIST_NEW(linked_list) : SPIF_LIST_NEW(dlinked_list);
+        for (i = 1; i <= np; i++) {
+            spif_obj_t z = cu_mk(1000 + i);
+            if (kind == 2) {
+                SPIF_LIST_APPEND(mine, SPIF_OBJ(spif_objpair_new_from_both(z, z)));
+                SPIF_OBJ_DEL(z);
+            } else {
+                SPIF_LIST_APPEND(mine, z);
+            }
         }
     }
-    R = (kind == 0) ? SPIF_MAP_GET_KEYS(M, mine) : (kind == 1) ? SPIF_MAP_GET_VALUES(M, mine) : SPIF_MAP_GET_PAIRS(M, mine);
-    if (SPIF_LIST_ISNULL(R)) { if (mine) SPIF_LIST_DEL(mine); return "listing=NULL"; }
-    if (w && R != mine) { SPIF_LIST_DEL(mine); return "listing_did_not_return_the_supplied_list"; }
+    for (r = 0; r < reps; r++) {
+        spif_list_t dest = r ? R : mine;
+        R2 = (kind == 0) ? SPIF_MAP_GET_KEYS(M, dest) : (kind == 1) ? SPIF_MAP_GET_VALUES(M, dest) : SPIF_MAP_GET_PAIRS(M, dest);
+        if (SPIF_LIST_ISNULL(R2)) { if (dest) SPIF_LIST_DEL(dest); return "listing=NULL"; }
+        if (dest && R2 != dest) { SPIF_LIST_DEL(dest); return "listing_did_not_return_the_supplied_list"; }
+        R = R2;
+    }
     n = (long) SPIF_LIST_COUNT(R);
     sb_putc(ret, '[');
     for (i = 0; i < n; i++) {
@@ -157,7 +165,7 @@ static const char *listing(spif_map_t M, int kind, int w, vh_sb *ret) {
         if (kind == 2) sb_pair(ret, e); else sb_int(ret, cu_val(e));
     }
     sb_putc(ret, ']');
-    SPIF_LIST_DEL(R);          /* the listing (copies of keys/values/pairs) is the caller's */
+    SPIF_LIST_DEL(R);          /* the listing (copies of keys/values/pairs) and the caller's own entries are the caller's */
     return NULL;
 }
 
@@ -216,7 +224,9 @@ static const char *vh_step(const vh_step_t *st, vh_sb *ret, vh_sb *state) {
     } else if (OP("count")) {
         sb_int(ret, (long) SPIF_MAP_COUNT(M));
     } else if (OP("get_keys") || OP("get_values") || OP("get_pairs")) {
-        if ((inv = listing(M, OP("get_keys") ? 0 : OP("get_values") ? 1 : 2, vh_bool(st->args[0]), ret))) return inv;
+        if (st->nargs < 3) return "listing_needs_np_dc_reps";
+        if ((inv = listing(M, OP("get_keys") ? 0 : OP("get_values") ? 1 : 2, vh_int(st->args[0]), vh_int(st->args[1]),
+                           vh_int(st->args[2]), ret))) return inv;
     } else if (OP("iter_new")) {
         IT = SPIF_MAP_ITERATOR(A); it_count = 0;
         sb_bool(ret, !SPIF_ITERATOR_ISNULL(IT));
